@@ -12,7 +12,8 @@
   (while (and (not (pred)) (< n 2000)) (ev/sleep 0.01) (++ n)))
 
 (each sq seqs
-  (def [rd wr] (os/pipe))
+  # the read end is made for a subprocess (blocking): with a non-blocking stdin `read x` fails at once and the child would not wait for :R
+  (def [rd wr] (os/pipe :R))
   (def p (os/spawn ["/bin/sh" "-c" (string "read x; exit " (sq :code))] :p {:in rd :out :pipe :err :pipe}))
   (ev/close rd)
   (def results @[])
